@@ -22,6 +22,7 @@ const rule = "cases = (pattern string, parameter limits): every string over the 
 	"non-trivial when the string contains a wildcard delimiter or a hostname part"
 
 const alphabet = "/{}*ab.-"
+const hostAlphabet = "a1-./{}"
 
 type limits struct{ params, key int }
 
@@ -67,18 +68,23 @@ func main() {
 	}
 	maxLen := run.Pick(6, 8)
 	exhaustive(run, noLimit, maxLen)
+	exhaustiveOver(run, noLimit, run.Pick(6, 8), hostAlphabet)
 	small := run.Pick(5, 6)
 	for _, p := range []int{0, 1, 2} {
 		for _, k := range []int{1, 2, 3} {
 			exhaustive(run, limits{p, k}, small)
 		}
 	}
-	run.SetExtra("exhaustive_subspace", fmt.Sprintf("all strings over %q up to length %d with default limits, and up to length %d for each of 9 (max params in 0..2) x (max key bytes in 1..3) limit pairs: enumerated completely", alphabet, maxLen, small))
+	run.SetExtra("exhaustive_subspace", fmt.Sprintf("all strings over %q up to length %d with default limits, and up to length %d for each of 9 (max params in 0..2) x (max key bytes in 1..3) limit pairs: enumerated completely; plus all strings over the hostname-focused alphabet %q up to length %d", alphabet, maxLen, small, hostAlphabet, run.Pick(6, 8)))
 	random(run)
 	edges(run)
 }
 
 func exhaustive(run *kit.Run, l limits, maxLen int) {
+	exhaustiveOver(run, l, maxLen, alphabet)
+}
+
+func exhaustiveOver(run *kit.Run, l limits, maxLen int, alphabet string) {
 	// split the space by the first two characters
 	var prefixes []string
 	for i := 0; i < len(alphabet); i++ {
@@ -130,7 +136,7 @@ func random(run *kit.Run) {
 				}
 			default:
 				if r.IntN(3) == 0 {
-					sb.WriteString([]string{"a.com", "{s}.b.c", "x.{t}", "a-b.c0m", "a..b", ".a", "a.", "-a", "a-", "1.2", "a_b.c", "*{h}.com", "a{p}.com", "{p}a.com"}[r.IntN(14)])
+					sb.WriteString([]string{"a.com", "{s}.b.c", "x.{t}", "a-b.c0m", "a..b", ".a", "a.", "-a", "a-", "1.2", "a_b.c", "*{h}.com", "a{p}.com", "{p}a.com", "{s}.{t}.com", "{a}.{b}", "1-1", "10-0.0-9", "x{a}.y{b}.z"}[r.IntN(19)])
 				}
 				k := 1 + r.IntN(8)
 				for j := 0; j < k; j++ {
